@@ -13,7 +13,7 @@ import (
 func init() {
 	register(&Property{
 		ID:        "C06",
-		Technique: "typestate over the server's end-of-RPC path and the invoke hand-off, guard/provenance analysis of the reader's park site, must-terminate summary of terminal calls",
+		Technique: "typestate over the server's end-of-RPC path and the invoke hand-off, guard/provenance analysis of the reader's park site, must-terminate summary of terminal calls; tested-then-dropped error (contradiction) check and interprocedural lock-pairing check over the packages the property is anchored in",
 		Explanation: "Structural conditions of 'a connection whose RPCs have ended accepts the next RPC' — phrased as: who can be parked, and who would wake them: " +
 			"(R1) after the handler returns the server issues exactly one terminal call (SendError on error, CloseSend otherwise); " +
 			"(R2) that terminal call terminates the stream, so the connection reader cannot stay parked in packetBuffer.Put for a stream nobody reads — the CloseSend path does not (known finding D8); " +
